@@ -233,6 +233,29 @@ fn case(g: &mut Gen, ctx: &mut Ctx) -> CaseResult {
             ensure!(seen.is_empty(), "create_tag without a payload still called the MAC function (with {})", hex_trunc(&seen[0], 60));
         }
         ctx.class("builder-helper");
+        // the built message, its protected header edited through the public fields afterwards: the
+        // verifier MACs the edited header
+        if has_payload && h.rest.iter().all(|(l, _)| !matches!(l, coset::Label::Int(i) if (77_000..77_100).contains(i))) {
+            let mut seen2: Vec<u8> = vec![];
+            let p2;
+            if mac0 {
+                let mut m = CoseMac0Builder::new().protected(h.clone()).payload(payload.clone()).create_tag(&aad, |_| vec![0x7a]).build();
+                p2 = edit_built_protected(g, &mut m.protected)?;
+                let _: Result<(), ()> = m.verify_tag(&aad, |_, d| {
+                    seen2 = d.to_vec();
+                    Ok(())
+                });
+            } else {
+                let mut m = CoseMacBuilder::new().protected(h.clone()).payload(payload.clone()).create_tag(&aad, |_| vec![0x7a]).build();
+                p2 = edit_built_protected(g, &mut m.protected)?;
+                let _: Result<(), ()> = m.verify_tag(&aad, |_, d| {
+                    seen2 = d.to_vec();
+                    Ok(())
+                });
+            }
+            expect_eq("message built through the builder, protected header edited afterwards: verify_tag", &seen2, &ref_mac_structure(if mac0 { "MAC0" } else { "MAC" }, &p2, &aad, &payload))?;
+            ctx.class("built-then-edited");
+        }
     }
     // injectivity on a perturbed tuple
     let mut aad2 = aad.clone();
